@@ -5,6 +5,7 @@ From ZV Require Import Liquidity LiquidityProofs Bridge BridgeProofs LockTermsPr
 From ZV.gen Require Import Consts Pure PureRelease.
 From ZV Require Import ReleaseSource.
 From ZV Require Import EmbSource.
+From ZV Require Import LocksSource.
 Open Scope Z_scope.
 
 (* ---- backing: for every history (queue) of calls processed by generateEmbeddedReceive - applied or refunded -
@@ -643,3 +644,81 @@ Theorem C10_unlock_htlc_is_the_source : forall (H : Z -> bytes -> bytes) (num : 
     end.
 
 Proof. intros H num num_inj. exact (unlock_htlc_is_source H num num_inj). Qed.
+
+(* sentinel.Revoke and pillar.Revoke of the hand model (Locks.v / Pillar.v) = the translated source; the window verdict, an
+   oracle input of the translations, is the model's revoke_window (itself proved equal to the translated
+   GetSentinelRevokeStatus / PillarGetRevokeStatus above) *)
+Theorem C10_sentinel_revoke_is_the_source : forall (num : bytes -> Z) (e : lenv) (a : cacct nstore) (s : send) ,
+    match sentinel_revoke_validate s with
+    | VErr c =>
+        sentinel_revoke_receive e a s = MErr c /\
+        (c <> 0 -> forall rts znn qsr f nn can until now own,
+           RevokeSentinel_receive rts znn qsr c f nn can until now own = GoSem.Ok (nil, c, rts, znn, qsr, None))
+    | VPanic => sentinel_revoke_receive e a s = MPanic
+    | VOk _ =>
+        match tget (n_ent (a_store a)) (s_from s) with
+        | None =>
+            sentinel_revoke_receive e a s = MErr E_nonexistent /\
+            forall rts znn qsr can until now own,
+              RevokeSentinel_receive rts znn qsr 0 0 false can until now own =
+              GoSem.Ok (nil, Err_constants_ErrDataNonExistent, rts, znn, qsr, None)
+        | Some ent =>
+            match revoke_window (c_SentinelLock e) (c_SentinelRevoke e) (n_reg ent) (l_now e) with
+            | GoSem.Panic => True
+            | GoSem.Ok (can, until) =>
+                let src := RevokeSentinel_receive (n_revoke ent) (n_znn ent) (n_qsr ent) 0 0 true can until (l_now e) (num (s_from s)) in
+                match sentinel_revoke_receive e a s with
+                | MOk a' ds =>
+                    ds = [{| d_to := s_from s; d_amount := n_znn ent; d_zts := ZtsZnn; d_data := [] |};
+                          {| d_to := s_from s; d_amount := n_qsr ent; d_zts := ZtsQsr; d_data := [] |}] /\
+                    src = GoSem.Ok ([(num (s_from s), n_znn ent, ZnnTokenStandard); (num (s_from s), n_qsr ent, QsrTokenStandard)],
+                              0, l_now e, 0, 0, Some 1) /\
+                    (exists ent', tget (n_ent (a_store a')) (s_from s) = Some ent' /\
+                       n_revoke ent' = l_now e /\ n_znn ent' = 0 /\ n_qsr ent' = 0)
+                | MErr c =>
+                    (c = E_already_revoked /\ src = GoSem.Ok (nil, Err_constants_ErrAlreadyRevoked, n_revoke ent, n_znn ent, n_qsr ent, None)) \/
+                    (c = E_revoke_not_due /\ src = GoSem.Ok (nil, Err_constants_RevokeNotDue, n_revoke ent, n_znn ent, n_qsr ent, None))
+                | MPanic => False
+                end
+            end
+        end
+    end.
+
+Proof. exact sentinel_revoke_is_source. Qed.
+Theorem C10_pillar_revoke_is_the_source : forall (name_ok : bytes -> bool) (num : bytes -> Z) (num_inj : forall x y, num x = num y -> x = y) (e : lenv) (a : cacct lstore) (s : send) ,
+    c_PillarStake e = PillarStakeAmount ->
+    match pillar_revoke_validate name_ok s with
+    | VErr c =>
+        pillar_revoke_receive name_ok e a s = MErr c /\
+        (c <> 0 -> forall rt amt u g act stake sender f st lft now sv,
+           RevokePillar_receive rt amt c u g act stake sender f st lft now sv = GoSem.Ok (nil, c, rt, amt, None))
+    | VPanic => pillar_revoke_receive name_ok e a s = MPanic
+    | VOk name =>
+        match tget (l_pillars (a_store a)) name with
+        | None =>
+            pillar_revoke_receive name_ok e a s = MErr E_nonexistent /\
+            forall rt amt act stake sender f st lft now sv,
+              RevokePillar_receive rt amt 0 0 Err_constants_ErrDataNonExistent act stake sender f st lft now sv =
+              GoSem.Ok (nil, Err_constants_ErrDataNonExistent, rt, amt, None)
+        | Some p =>
+            match revoke_window (c_PillarLock e) (c_PillarRevoke e) (l_reg p) (l_now e) with
+            | GoSem.Panic => True
+            | GoSem.Ok (can, lft) =>
+                let src := RevokePillar_receive (l_revoke p) (l_amount p) 0 0 0 (l_revoke p =? 0) (num (l_owner p))
+                             (num (s_from s)) 0 can lft (l_now e) 0 in
+                match pillar_revoke_receive name_ok e a s with
+                | MOk a' ds =>
+                    ds = [{| d_to := l_owner p; d_amount := c_PillarStake e; d_zts := ZtsZnn; d_data := [] |}] /\
+                    src = GoSem.Ok ([(num (l_owner p), PillarStakeAmount, ZnnTokenStandard)], 0, l_now e, 0, Some 1) /\
+                    (exists p', tget (l_pillars (a_store a')) name = Some p' /\ l_revoke p' = l_now e /\ l_amount p' = 0)
+                | MErr c =>
+                    (c = E_not_active /\ src = GoSem.Ok (nil, Err_constants_ErrNotActive, l_revoke p, l_amount p, None)) \/
+                    (c = E_permission /\ src = GoSem.Ok (nil, Err_constants_ErrPermissionDenied, l_revoke p, l_amount p, None)) \/
+                    (c = E_revoke_not_due /\ src = GoSem.Ok (nil, Err_constants_RevokeNotDue, l_revoke p, l_amount p, None))
+                | MPanic => False
+                end
+            end
+        end
+    end.
+
+Proof. exact pillar_revoke_is_source. Qed.
